@@ -104,6 +104,56 @@ theorem ping_ok_implies_matching_pong (tr : List Action) (s : State) (h : run {}
   have := inv.closed p pg hp
   exact this.1 (this.2 hok)
 
+/-- The ghost counter is sound: a positive count means that the trace contains a pong carrying the
+ping's id, delivered when the ping already existed. -/
+theorem pongs_pos_gives_pong (tr : List Action) : ∀ (s : State), run {} tr = some s →
+    ∀ (p : Nat) (pg : Ping), s.pings[p]? = some pg → 1 ≤ pg.pongs →
+    ∃ pre post s1 pg1, tr = pre ++ Action.pong pg.id :: post ∧ run {} pre = some s1 ∧
+      s1.pings[p]? = some pg1 ∧ pg1.id = pg.id := by
+  refine rev_induction (P := fun tr => ∀ (s : State), run {} tr = some s →
+    ∀ (p : Nat) (pg : Ping), s.pings[p]? = some pg → 1 ≤ pg.pongs →
+    ∃ pre post s1 pg1, tr = pre ++ Action.pong pg.id :: post ∧ run {} pre = some s1 ∧
+      s1.pings[p]? = some pg1 ∧ pg1.id = pg.id) ?_ ?_ tr
+  · intro s h p pg hp _
+    simp only [run, Option.some.injEq] at h
+    subst h; simp at hp
+  · intro tr' a ih s h p pg hp hpos
+    rw [run_append] at h
+    cases h0 : run {} tr' with
+    | none => simp [h0] at h
+    | some s0 =>
+      simp only [h0, Option.bind_some, run] at h
+      cases hs : step s0 a with
+      | none => simp [hs] at h
+      | some s' =>
+        simp only [hs, Option.some.injEq] at h
+        subst h
+        cases hp0 : s0.pings[p]? with
+        | none =>
+          have := (step_pings s0 s' a hs p).2 hp0 pg hp
+          omega
+        | some pg0 =>
+          obtain ⟨hid, hcnt⟩ := pongs_counts_matching_pongs s0 s' a p pg0 pg hs hp0 hp
+          by_cases hpos0 : 1 ≤ pg0.pongs
+          · obtain ⟨pre, post, s1, pg1, htr, hrun, hp1, hid1⟩ := ih s0 h0 p pg0 hp0 hpos0
+            refine ⟨pre, post ++ [a], s1, pg1, ?_, hrun, hp1, by rw [hid1, hid]⟩
+            rw [htr, hid]; simp
+          · have hz : pg0.pongs = 0 := by omega
+            have ha : a = Action.pong pg0.id := by
+              by_cases ha : a = Action.pong pg0.id
+              · exact ha
+              · simp [ha] at hcnt; omega
+            refine ⟨tr', [], s0, pg0, ?_, h0, hp0, hid.symm⟩
+            rw [ha, hid]
+
+/-- Trace form of the property: if a ping returned success along a trace, the trace contains —
+before that state — a pong with the ping's own id delivered after the ping was called. -/
+theorem ping_ok_has_pong_in_trace (tr : List Action) (s : State) (h : run {} tr = some s)
+    (p : Nat) (pg : Ping) (hp : s.pings[p]? = some pg) (hok : pg.ret = some true) :
+    ∃ pre post s1 pg1, tr = pre ++ Action.pong pg.id :: post ∧ run {} pre = some s1 ∧
+      s1.pings[p]? = some pg1 ∧ pg1.id = pg.id :=
+  pongs_pos_gives_pong tr s h p pg hp (ping_ok_implies_matching_pong tr s h p pg hp hok)
+
 /-- Success is not even *enabled* before the ping's channel was closed by a matching pong. -/
 theorem retOk_needs_closed_channel (s s' : State) (p : Nat) (h : step s (.retOk p) = some s') :
     ∃ pg, s.pings[p]? = some pg ∧ pg.closed = true ∧ pg.ret = none := by
